@@ -16,7 +16,7 @@ RULE = ("base calls {rate, rate+ranks, rate+scores, predict_win, predict_draw, p
         "lengths; element p of ranks/scores <- 10 non-numbers; both selectors (3 combinations); acceptance side: 16 well-formed "
         "typings of rank/score values must return normally.  Oracle: TypeError/ValueError only, never a return; every rating "
         "reachable from the arguments, the argument containers and model.__dict__ unchanged.  E2/I4: the 13 representative "
-        "malformed calls are self-loops from every state reachable in <=1 (quick) rate call.  non-trivial = every injected fault "
+        "malformed calls are self-loops from every state reachable by one call of the reduced alphabet (thorough: by three calls of the small alphabet).  non-trivial = every injected fault "
         "(distinct by construction: op x shape x position x fault)")
 ASSUMPTIONS = ["I4: falsy non-list selectors (0, '', (), None) count as 'not given'",
                "Decimal / Fraction / complex rank values are numbers of another kind: either a clean rejection or a normal return is accepted",
@@ -348,7 +348,12 @@ def main(ctx, t0):
     acc = core.run_units([u for u in units(ctx) if u[0] != "e2"], run_unit, ctx)
     core.deterministic_ids(0)
     searches = [(k, c, "reduced") for k in spaces.KINDS for c in (("default", "limit") if ctx.thorough else ("default",))]
-    stats, a2 = e2.explore(searches, 3 if ctx.thorough else 2, ctx, chunk=16, invs=("I4",))
+    stats, a2 = e2.explore(searches, 2, ctx, chunk=16, invs=("I4",))
+    if ctx.thorough:  # deeper histories over the small alphabet (depth 4: every state reachable by three calls is expanded)
+        deep = [(k, c, "small") for (k, c, _) in searches]
+        stats_d, a2d = e2.explore(deep, 4, ctx, chunk=64, invs=("I4",))
+        stats.update(stats_d)
+        a2.merge(a2d)
     n_i4 = 0
     for v in a2.violations:
         if v["case"]["inv"] == "I4":
